@@ -169,10 +169,45 @@ impl CaoLangObject {
     }
 }
 
+thread_local! {
+    /// tables whose hash is being computed / pairs of tables being compared on this thread.
+    /// Tables can (directly or indirectly) contain themselves; without this the content based
+    /// hash and comparison recurse until the native stack overflows.
+    static HASH_IN_PROGRESS: std::cell::RefCell<Vec<*const CaoLangObject>> =
+        const { std::cell::RefCell::new(Vec::new()) };
+    static EQ_IN_PROGRESS: std::cell::RefCell<Vec<(*const CaoLangObject, *const CaoLangObject)>> =
+        const { std::cell::RefCell::new(Vec::new()) };
+}
+
+struct PopOnDrop<T: 'static>(&'static std::thread::LocalKey<std::cell::RefCell<Vec<T>>>);
+
+impl<T: 'static> Drop for PopOnDrop<T> {
+    fn drop(&mut self) {
+        self.0.with(|s| {
+            s.borrow_mut().pop();
+        });
+    }
+}
+
 impl std::hash::Hash for CaoLangObject {
     fn hash<H: std::hash::Hasher>(&self, state: &mut H) {
         match &self.body {
             CaoLangObjectBody::Table(o) => {
+                let me = self as *const CaoLangObject;
+                let revisited = HASH_IN_PROGRESS.with(|s| {
+                    let mut s = s.borrow_mut();
+                    let revisited = s.contains(&me);
+                    if !revisited {
+                        s.push(me);
+                    }
+                    revisited
+                });
+                if revisited {
+                    // back reference to a table that is being hashed further up
+                    state.write_u8(0xff);
+                    return;
+                }
+                let _pop = PopOnDrop(&HASH_IN_PROGRESS);
                 for (k, v) in o.iter() {
                     k.hash(state);
                     v.hash(state);
@@ -204,6 +239,21 @@ impl PartialEq for CaoLangObject {
                 if lhs.len() != rhs.len() {
                     return false;
                 }
+                // a pair that is already being compared further up is assumed equal (the
+                // comparison that is in progress decides)
+                let pair = (self as *const CaoLangObject, other as *const CaoLangObject);
+                let revisited = EQ_IN_PROGRESS.with(|s| {
+                    let mut s = s.borrow_mut();
+                    let revisited = s.contains(&pair);
+                    if !revisited {
+                        s.push(pair);
+                    }
+                    revisited
+                });
+                if revisited {
+                    return true;
+                }
+                let _pop = PopOnDrop(&EQ_IN_PROGRESS);
                 for ((kl, vl), (kr, vr)) in lhs.iter().zip(rhs.iter()) {
                     if kl != kr || vl != vr {
                         return false;
